@@ -94,7 +94,7 @@ StFor(t) ==
     [] t = "time" -> <<[largest |-> "hour"], [largest |-> "minute", smallest |-> "second", inc |-> 15, mode |-> "ceil"], [smallest |-> "year"], [mode |-> "trunc"]>>
     [] t = "inst" -> <<[largest |-> "hour"], [largest |-> "second", smallest |-> "millisecond", inc |-> 100, mode |-> "floor"], [largest |-> "day"], [mode |-> "halfEven", inc |-> 0]>>
     [] OTHER -> <<[largest |-> "year"], [largest |-> "hour"], [largest |-> "month", smallest |-> "minute", inc |-> 5, mode |-> "halfExpand"], [mode |-> "trunc"]>>
-Tsros == <<[precision |-> "auto"], [precision |-> 3], [precision |-> "minute"], [precision |-> "auto", smallest |-> "second", mode |-> "ceil"], [precision |-> 9, mode |-> "floor"]>>
+Tsros == <<[precision |-> "auto"], [precision |-> 3], [precision |-> "minute"], [precision |-> "minute", digits |-> 5], [precision |-> "auto", smallest |-> "second", mode |-> "ceil"], [precision |-> 9, mode |-> "floor"]>>
 DCals == <<"auto", "always", "never", "critical">>
 Ropts == <<[smallest |-> "hour"], [smallest |-> "minute", inc |-> 15, mode |-> "ceil"], [largest |-> "day", smallest |-> "second", mode |-> "floor"], [mode |-> "trunc"]>>
 DurRopts == <<[smallest |-> "hour"], [largest |-> "day", smallest |-> "minute", inc |-> 15, mode |-> "halfExpand"], [largest |-> "year", smallest |-> "month", mode |-> "ceil"], [largest |-> "hour"], [mode |-> "trunc"]>>
